@@ -724,6 +724,15 @@ func checkC02Layout(c *Check, p *Program) {
 				}
 			}
 		}
+		if !okShape && us == nil {
+			// a hand-written header decoder: interpreted
+			if acc, outsOK, okI, whyI := headerByInterpretation(p, uh); okI {
+				okShape = outsOK && acc[0][6] && acc[1][16]
+				why = "interpreted: the decoder does not accept 06 10 or does not take service and total length from octets 2..5"
+			} else {
+				why = whyI
+			}
+		}
 		c.Decide(okShape, "C02.layout", "knxnet.UnpackHeader reads 06 10 service total", p.Pos(uh.Pos()), "octet (accepts 6), octet (accepts 16), service identifier (2), total length (2)", why)
 	} else {
 		c.Fail("C02.layout", "knxnet.UnpackHeader", "", "not found")
